@@ -6,6 +6,14 @@ UNITS = {
     ],
 }
 
+UNITS["C03"] = [
+    dict(test="TestC03_Tokens", quick=dict(checks=3000, shards=2), thorough=dict(checks=60000, shards=8)),
+    dict(test="TestC03_Edits", quick=dict(checks=60, shards=8, shrinktime="10s"), thorough=dict(checks=1200, shards=16)),
+    dict(test="TestC03_Raw", quick=dict(checks=3000, shards=2), thorough=dict(checks=60000, shards=8)),
+    dict(test="TestC03_Lists", quick=dict(checks=1500, shards=1), thorough=dict(checks=30000, shards=4)),
+]
+
 RULES = {
+    "C03": "no argument makes ValidateLicenses / Satisfies / ExtractLicenses panic (recover() around every call)",
     "C01": "Satisfies equals the Boolean value of the generated formula under per-term verdicts",
 }
